@@ -76,13 +76,16 @@ class C13(Prop):
     level_text = ("Lean 4 theorems about an executable model of src/comm.c input framing (copy_chars telnet decoder, "
                   "get_user_data space rule/compaction/discard, PORT_ASCII and PORT_BINARY paths, first/next_cmd_in_buf, "
                   "telnet_neg editing, add_console_line, the console worker's read/terminate/enqueue step, get_char()/input_to() mode switches with set_telnet_single_char, "
-                  "reframe_single_char_input and NOECHO) for all byte streams and all read/extract/mode-switch schedules; "
+                  "reframe_single_char_input and NOECHO, the hold test that replaces the discard of typed-ahead commands, the "
+                  "input-side snoop callback) for all byte streams and all read/extract/mode-switch schedules; "
                   "tied to the source by regenerated constants, guard numbers, statement orders, the exhaustive copy_chars "
                   "transition table (29 184 transitions compared in Lean), the small-scope exhaustive table of cmd_in_buf/"
                   "first_cmd_in_buf/next_cmd_in_buf (2046 configurations) and the editing/terminator byte sets, and by "
                   "running the real functions and the model on the same streams under exhaustive 2-splits and random "
-                  "k-splits; the Lean oracle judges every real trace; its crash/index/ask/line-length clauses are a theorem "
-                  "on model traces (run_events_safe)")
+                  "k-splits; the Lean oracle judges every real trace (incl. a stall clause for held reads); its "
+                  "crash/index/ask/line-length clauses are a theorem on model traces (run_events_safe); telnet framing "
+                  "(telnet_lines_delivered) needs only the side condition `no unfinished line longer than the discard "
+                  "threshold`; PORT_BINARY framing (binary_bytes_delivered) is unconditional")
     level_note = ("trusted: Lean kernel; extract.py + the regexes in props/c13.py that read TS_* and the guards from "
                   "comm.c; the correspondence harness (recv/send interposed, apply renamed inside the included comm.c) and "
                   "its ccprobe/edprobe commands that produce the transition table; the table covers single steps from "
@@ -104,7 +107,9 @@ class C13(Prop):
             "binary ports and the console; non-trivial = trace has >= 2 lines; distinct = distinct canonical trace")
     not_covered = ["single-character mode: delivery granularity is outside the statement (memory safety, mode switches and "
                    "reframing are covered)",
-                   "the `!` shell escape of process_user_command (WAS_SINGLE_CHAR), snooping, ed, termios / console get_char",
+                   "the `!` shell escape of process_user_command (WAS_SINGLE_CHAR), ed, termios / console get_char",
+                   "snooper callbacks made from INSIDE copy_chars through add_message() (echo, telnet replies): they always "
+                   "succeed in the harness; a snooper error / destruct there is an unrepaired defect recorded in notes/C13.md",
                    "what the LPC user object does with the line after process_input",
                    "Windows IOCP completion path of get_user_data (evt != NULL); recv() errno paths other than EWOULDBLOCK",
                    "console worker: thread scheduling, select() timeouts, queue overflow policy (the worker procedure, the line "
